@@ -120,7 +120,9 @@ class RawLinkLayer(LinkLayer):
                         and m[6:12] != self.mac_address
                     ):
                         self.receive_callback(m[14:])
-                except NotImplementedError as e:
+                except Exception as e:  # pylint: disable=broad-exception-caught
+                    # No received frame may terminate the receive loop: whatever the upper
+                    # layers raise on a malformed packet, the frame is discarded.
                     print("Error decoding packet: " + str(e))
             except OSError:
                 break
